@@ -24,7 +24,7 @@ func init() {
 			// func(list []T, pos int) []T { list[pos] = list[len(list)-1]; return list[:len(list)-1] }
 			swapHelper := func(f *ssa.Function) (posIdx int, ok bool) {
 				if f == nil || len(f.Blocks) == 0 || len(f.Blocks) > 2 {
-					return 0, false
+					return positionRemover(f)
 				}
 				found := -1
 				an.Instrs(f, func(in ssa.Instruction) {
@@ -50,10 +50,19 @@ func init() {
 						}
 					}
 				})
-				return found, found >= 0
+				if found >= 0 {
+					return found, true
+				}
+				return positionRemover(f)
 			}
+			nIndex := 0
 			for _, fn := range fns {
 				k := 0
+				if core.FuncPkgPath(fn) == c.P.Module+"/types" {
+					c.SetTags("index")
+				} else {
+					c.SetTags("store")
+				}
 				for _, b := range fn.Blocks {
 					for _, in := range b.Instrs {
 						// the removal done by a helper at the loop's counter
@@ -63,6 +72,9 @@ func init() {
 									if idx, isPhi := an.Strip(hc.Call.Args[pi]).(*ssa.Phi); isPhi && idx.Block() == h {
 										n++
 										k++
+										if core.FuncPkgPath(fn) == c.P.Module+"/types" {
+											nIndex++
+										}
 										key := fmt.Sprintf("swap:%s#%d", kn(c.P.FuncName(fn)), k)
 										bad := swapAdvances(b, h, idx)
 										c.Check(!bad, key, hc.Pos(), "after the swap-removal at %s the loop examines the slot again (or counts downwards): %v — otherwise the element moved into the slot is never tested", c.P.Pos(hc.Pos()), !bad)
@@ -112,6 +124,9 @@ func init() {
 						}
 						n++
 						k++
+						if core.FuncPkgPath(fn) == c.P.Module+"/types" {
+							nIndex++
+						}
 						key := fmt.Sprintf("swap:%s#%d", kn(c.P.FuncName(fn)), k)
 						bad := token.NoPos
 						if swapAdvances(b, h, idx) {
@@ -121,6 +136,11 @@ func init() {
 					}
 				}
 			}
+			if nIndex == 0 {
+				c.SetTags("index")
+				c.Pass("swap:none-in-index", token.NoPos, "the index type removes no entry by moving the last one into its slot inside a loop: no slot to examine again")
+			}
+			c.SetTags()
 			if n == 0 {
 				c.Unresolved("swap-removals", "no swap-with-last removal inside a loop found")
 			}
@@ -212,6 +232,16 @@ func swapAdvances(b, h *ssa.BasicBlock, idx *ssa.Phi) bool {
 				}
 			}
 		}
+		// min(counter, …) is at most the counter
+		if call, ok := v.(*ssa.Call); ok && d < 3 {
+			if bi, isB := call.Call.Value.(*ssa.Builtin); isB && bi.Name() == "min" {
+				for _, a := range call.Call.Args {
+					if fromIdx(a, d+1) {
+						return true
+					}
+				}
+			}
+		}
 		return false
 	}
 	for pi, pred := range h.Preds {
@@ -265,3 +295,58 @@ func reachesWithout(from, to, avoid *ssa.BasicBlock) bool {
 }
 
 var _ = core.FuncPkgPath
+
+// positionRemover: f overwrites the element of a list at the position one of its parameters gives and shortens that
+// list by one from the end (stored back into a field of its receiver, or returned) — a remove-by-position helper that
+// moves another element into the slot. Returns the position's index in the argument list of a call.
+func positionRemover(f *ssa.Function) (int, bool) {
+	if f == nil || len(f.Blocks) == 0 || len(f.Blocks) > 4 {
+		return 0, false
+	}
+	pos := -1
+	var list ssa.Value
+	an.Instrs(f, func(in ssa.Instruction) {
+		st, ok := in.(*ssa.Store)
+		if !ok {
+			return
+		}
+		ia, ok := st.Addr.(*ssa.IndexAddr)
+		if !ok {
+			return
+		}
+		for k, p := range f.Params {
+			if an.Strip(ia.Index) == ssa.Value(p) || an.Origin(ia.Index) == ssa.Value(p) {
+				// the value stored comes from the same list
+				if ld, isLd := an.Strip(st.Val).(*ssa.UnOp); isLd && ld.Op == token.MUL {
+					if src, isSrc := ld.X.(*ssa.IndexAddr); isSrc && (sameSource(src.X, ia.X) || an.Origin(src.X) == an.Origin(ia.X)) {
+						pos, list = k, ia.X
+					}
+				}
+			}
+		}
+	})
+	if pos < 0 {
+		return 0, false
+	}
+	shrinks := false
+	an.Instrs(f, func(in ssa.Instruction) {
+		var v ssa.Value
+		switch x := in.(type) {
+		case *ssa.Store:
+			if _, isFA := x.Addr.(*ssa.FieldAddr); isFA {
+				v = x.Val
+			}
+		case *ssa.Return:
+			if len(x.Results) == 1 {
+				v = x.Results[0]
+			}
+		}
+		if v == nil {
+			return
+		}
+		if sl, ok := an.Strip(v).(*ssa.Slice); ok && sl.High != nil && sl.Low == nil && (sameSource(sl.X, list) || an.Origin(sl.X) == an.Origin(list)) {
+			shrinks = true
+		}
+	})
+	return pos, shrinks
+}
